@@ -116,8 +116,10 @@ def abc(rep, prog):
     if not isinstance(cls, ast.ClassDef):
         rep.ob('R08.abc', 'class', None, 'AbstractHarmonicCoefficients not found'); return
     env = {'self': A('self'), 'n': A('n')}
-    def meth(name, facts=()):
+    def meth(name, facts=(), inline=()):
         ev = Evaluator(prog, real_atoms={'n'}, facts=list(facts))
+        ev.self_class = (m, cls)          # private helpers of the class are inlined; amplitude() / phase() stay symbolic
+        ev.inline_self_methods = set(inline)
         mem = prog.find_member(m, cls, name)
         return ev, ev.call_fn(mem[1], mem[0], [A('self'), A('n')], {}, {'__parent__': None}, 1), prog.site(mem[0], mem[1])
     specs = {
@@ -131,7 +133,15 @@ def abc(rep, prog):
         ev, t, site = meth(name)
         # amplitude()/phase() results are real numbers: declare the call atoms real so that exp(j x) expands on both sides alike
         sp = spec(ev, src, env, m)
-        rep.ob('R08.abc', name, compare_terms(t, sp), f'{name}(n) = {t!r:.200}', site, lhs=t, rhs=sp)
+        c = compare_terms(t, sp)
+        if c is not True and name in ('a', 'b', 'c'):
+            # the same comparison with amplitude() / phase() unfolded to the abstract coefficients: a definition that relies on their symmetry
+            # (one expression for both signs of n) is equal to the case-by-case form
+            ev2, t2, _ = meth(name, inline=('amplitude', 'phase'))
+            sp2 = spec(ev2, src, env, m)
+            c2 = compare_terms(t2, sp2)
+            if c2 is True: c = True
+        rep.ob('R08.abc', name, c, f'{name}(n) = {t!r:.200}', site, lhs=t, rhs=sp)
 
 
 def lookup(rep, prog, table):
